@@ -20,7 +20,7 @@ from . import units as U
 from .z3env import REPO_SRC, ensure_repo_first
 
 VERIF = os.path.dirname(os.path.dirname(os.path.abspath(__file__)))
-EVID = os.path.join(VERIF, "evidence")
+EVID = os.environ.get("UJVC_EVID") or os.path.join(VERIF, "evidence")
 CONTRACT_MODULES = [
     "retry", "times", "filestore", "stores", "engine", "queues", "kahn", "graphs", "rewrite", "stale",
     "plumbing", "runpath", "observers", "trace", "frames", "progress", "lemmas", "history",
@@ -176,7 +176,7 @@ def check_property(pid, tier="quick", seed=0, update_expected=False, jobs=None, 
     vio_lines = []
     for o in violations:
         rp = replay_for(o, pid, mods)
-        path = os.path.join(EVID, "replays", pid, _slug(o["name"].split("/", 1)[-1]) + ".json")
+        path = os.path.join(EVID, "replays", pid, _slug(o["name"]) + ".json")
         doc = {
             "property": pid,
             "failed_obligation": o["name"],
